@@ -996,7 +996,11 @@ func runExc(t *zsim.Tape, cfg *hlib.Config, prop string) *hlib.Outcome {
 	} else if exp.Handled > 0 {
 		caught = "caught"
 	}
-	out.Keys = []string{fmt.Sprintf("%s|%s|h%d|mods%d|plan%s", raiseKind, caught, exp.Handled, len(p.Mods), plan.Kind)}
+	site, depth, cross := "-", 0, false
+	if exp.Raise != nil {
+		site, depth, cross = exp.Raise.site, exp.Raise.depth, exp.Raise.cross
+	}
+	out.Keys = []string{fmt.Sprintf("%s|%s|site=%s|depth=%d|cross=%v|h%d|mods%d|plan%s|probes%d", raiseKind, caught, site, depth, cross, exp.Handled, len(p.Mods), plan.Kind, min(base.Probes, 12))}
 	if exp.Raise == nil && exp.Handled == 0 {
 		out.Trivial = plan.N == 0
 	}
@@ -1253,4 +1257,11 @@ func chainDiff(g []chainEntry, e []xFrameRef) string {
 		}
 	}
 	return ""
+}
+
+func min(a, b int) int {
+	if a < b {
+		return a
+	}
+	return b
 }
